@@ -26,7 +26,11 @@ def v_kind(s):                                            # ok / err + error var
 def v_okfull(s):
     s = s.strip()
     return s if s.startswith('ok') or s in ('same', 'reject') or s.startswith('differs') else s.split(' ')[0]
-VIEWS = {'okfull': v_okfull, 'full': v_full, 'result': v_result, 'class': v_class, 'kind': v_kind,
+def v_jsonclass(s):
+    return 'ok' if s.strip().startswith('{') else 'err'
+def v_first(s):
+    return v_class(s.split(' ; ')[0])
+VIEWS = {'jsonclass': v_jsonclass, 'first': v_first, 'okfull': v_okfull, 'full': v_full, 'result': v_result, 'class': v_class, 'kind': v_kind,
          'opt_c05': pick(0, 'pre', 'post'), 'opt_c06': pick(0, 1, 'fold', 'idem', 'nodes', 'pur'), 'opt_c10': pick('chk'),
          'chk': pick(0), 'chk_exec': pick(0, 1), 'chkbool': pick(0, 1, 'rp')}
 
@@ -153,5 +157,10 @@ KNOWN_PREDICATES = {
     # D9: JSON has no representation for NaN / infinities; serde_json writes null, the value visitor rejects null
     'C12-nonfinite-literal': lambda stream, line, exp, spec: stream.startswith('json') and has_nonfinite_literal(line),
 }
-LAWS = {'json_same': law_json_same, 'c05': law_c05, 'c06': law_c06, 'c10': law_c10, 'c10_opt': law_c10_opt, 'c11': law_c11,
+def law_stable(lines, exp):
+    for k, (line, e) in enumerate(zip(lines, exp)):
+        if e.startswith('unstable'):
+            yield (k, line, e, 'identical result every time (stable …)')
+
+LAWS = {'stable': law_stable, 'json_same': law_json_same, 'c05': law_c05, 'c06': law_c06, 'c10': law_c10, 'c10_opt': law_c10_opt, 'c11': law_c11,
         'same': law_expect('same'), 'ok': law_ok, 'no_crash': law_no_crash}
